@@ -306,6 +306,7 @@ class Run:
         if n <= 1:
             return 0
         v = self.fresh_int(tag)
+        self.inputs[str(v)] = v
         self._add(z3.And(v >= 0, v < n))
         for k in range(n - 1):
             if self.branch(v == k):
